@@ -47,14 +47,32 @@ def check(ctx):
     ctx.rule("C09-H", "collapsed whitespace takes its tag with it: on every path of flush_word on which pending whitespace is "
              "discarded (wslen := 0 without being written), spacetag is cleared before the line is flushed — block padding is "
              "tagged with spacetag, so a stale one would put an inline element's annotations on the padding")
+    ctx.rule("C09-K", "the Link annotation carries the link's target as given: start_link hands its argument on unchanged")
     ctx.rule("C09-J", "an element's computed style travels on the node built for it: every reducer of the DOM walk that captured the "
              "element's ComputedStyle returns only nodes built by RenderNode::new_styled with it")
     ctx.rule("C09-I", "padding is a run of its own carrying the tag it is given: TaggedLine::pad_to changes the line only through "
              "push_ws(n, tag) with the caller's tag and never grows an existing piece")
     for rid, fn in (("C09-A", rule_a), ("C09-B", rule_b), ("C09-C", rule_c), ("C09-D", rule_d),
                     ("C09-E", rule_e), ("C09-F", rule_f), ("C09-F", rule_f2), ("C09-C", rule_h), ("C09-G", rule_g),
-                    ("C09-H", rule_ws_tag), ("C09-I", rule_pad_tag), ("C09-J", rule_styled_nodes)):
+                    ("C09-H", rule_ws_tag), ("C09-I", rule_pad_tag), ("C09-J", rule_styled_nodes), ("C09-K", rule_link_target_verbatim)):
         ctx.guard(rid, fn)
+
+
+def rule_link_target_verbatim(ctx):
+    """The Link annotation carries the link's target: the string given to TextRenderer::start_link reaches the
+    sub-renderer's start_link (and from there decorate_link_start) unchanged — clean-ups for display (new lines in
+    footnotes) belong to the footnote formatter."""
+    F = ctx.facts
+    for fn, inner in (("TextRenderer::<D>::start_link", RTRAIT + "start_link"), (RTRAIT + "start_link", "TextDecorator::decorate_link_start")):
+        b = F.one(fn)
+        cs = b.calls(lambda cd, t: ends(cd, inner))
+        if not ctx.check(len(cs) == 1, "C09-K", "%s→%s:one-call" % (fn.split("::")[-1], inner.split("::")[-1]), b.span, b.id, "%d calls" % len(cs)):
+            continue
+        t = cs[0][1]
+        at = b.atoms(t["args"][1])
+        calls = sorted({a[1].split("::")[-1] for a in at if a[0] == "call" and a[1] and a[1].split("::")[-1] not in ("deref", "deref_mut", "as_str", "as_ref", "borrow", "last_mut", "unwrap", "expect")})
+        ctx.check(("arg", 2) in at and not calls, "C09-K", "%s:target-handed-on-verbatim" % fn.split("::")[-1].replace("<D>", ""), t["span"], b.id,
+                  "the link target is transformed on its way into the annotation (%s)" % calls)
 
 
 def rule_styled_nodes(ctx):
